@@ -21,7 +21,7 @@ func init() {
 		Explanation: "Scope: the functions of the custom-function packages in which a time.Time value occurs. " +
 			"R19a no partial primitive: every epoch-extracting method call on time.Time is inventoried; (time.Time).UnixNano (undefined outside years 1678-2262) and instant differences ((time.Time).Sub, time.Since, time.Until: time.Duration saturates at +-292 years) are rejected unless their operands derive from time.Now() only; " +
 			"R19b no overflowing arithmetic between instant and epoch number: in every function that converts between time.Time and an epoch number, each integer *, +, -, << is checked by interval analysis over SSA (strconv.Parse* results span their full type, (time.Time).Unix() spans the property's domain years 0-9999 +- 1 day, Nanosecond() is [0,1e9), %, / and comparison guards against constants narrow) and must not be able to leave its type; a time.Unix(x/k, ns) call must derive ns from x%k of the same x and k (no truncation of the epoch number); " +
-			"R19c error-out / empty-in: every call that yields (value, error) has its error tested, no use of the value is reachable before the test or on the non-nil edge, every return reachable from the non-nil edge carries a non-nil error, every return with a non-nil error carries only zero values (never a formatted time), and every exported function returns (\"\", nil) on the `input == \"\"` edge, which dominates the parse of that input; " +
+			"R19c error-out / empty-in (scope: the date-time functions, their callers and their fallible helpers in the custom-function packages): every call that yields (value, error) has its error tested, no use of the value is reachable before the test or on the non-nil edge, every return reachable from the non-nil edge carries a non-nil error, every return with a non-nil error carries only zero values (never a formatted time; a single-exit return is judged per incoming edge: error known nil, or zero values), and every exported function returns (\"\", nil) on the `input == \"\"` edge, which dominates the parse of that input; a function may instead hand up the untouched (value, error) tuple of one call (`return g(...)`) when g is itself checked by this rule or every caller of the function is known and checked, and an exported function may leave the empty-input test to the helper whose tuple it returns that way; " +
 			"R19d unit dispatch is closed: the exported functions (or the lookup helper they hand the unit to) are run abstractly with the unit parameter fixed to each constant it is compared with / each constant key of the table it is looked up in (comma-ok), and to none of them: the constants are exactly SECOND and MILLISECOND, each is accepted on some path, both directions use the same set, and with an unknown unit every return after the first comparison is (\"\", non-nil error). " +
 			"R19e output provenance: a text returned without an error is data-dependent on an instant (time.Time value), or is the constant \"\" on the true edge of an `input == \"\"` test of an own string parameter; " +
 			"R19f no instant-shifting primitive ((time.Time).Add/AddDate/Truncate/Round) on an instant that does not derive from time.Now(); " +
@@ -721,6 +721,17 @@ func c19NilTests(set map[ssa.Value]bool) []c19test {
 }
 
 func c19ErrorEdges(c *core.Ctx, fns []*ssa.Function) {
+	// the date-time functions, their callers and their fallible helpers inside the custom-function packages
+	// (a body split into helpers keeps every piece in scope)
+	fns = c19ErrScope(c, fns)
+	pairs := c19NewPairs(c, fns)
+	{
+		var names []string
+		for _, f := range fns {
+			names = append(names, core.FuncKey(f))
+		}
+		c.Note("R19c scope (date-time functions, their callers and fallible helpers): %s", strings.Join(names, ", "))
+	}
 	// --- sinks: string parameters that are parsed into an instant / epoch number
 	type psink struct {
 		f *ssa.Function
@@ -770,6 +781,121 @@ func c19ErrorEdges(c *core.Ctx, fns []*ssa.Function) {
 		}
 	}
 
+	// emptyEdge decides "empty input yields empty output" for the input parameter number i of f: f returns ("", nil)
+	// on the `p == ""` edge of a test that dominates every parse of p - or f hands p, untested, to helpers only whose
+	// result tuple it returns untouched (`return g(p, ...)`) and which themselves satisfy this for that parameter.
+	var emptyEdge func(f *ssa.Function, i int, depth int) (how string, okPos token.Pos, bad string, badPos token.Pos)
+	emptyEdge = func(f *ssa.Function, i int, depth int) (how string, okPos token.Pos, bad string, badPos token.Pos) {
+		p := f.Params[i]
+		last := f.Signature.Results().Len() - 1
+		var test *ssa.If
+		var emptySucc *ssa.BasicBlock
+		for _, u := range core.Referrers(p) {
+			bo, ok := u.(*ssa.BinOp)
+			if !ok || (bo.Op != token.EQL && bo.Op != token.NEQ) {
+				continue
+			}
+			other := bo.Y
+			if bo.Y == ssa.Value(p) {
+				other = bo.X
+			}
+			k, ok := other.(*ssa.Const)
+			if !ok || k.Value == nil || k.Value.Kind() != constant.String || constant.StringVal(k.Value) != "" {
+				continue
+			}
+			for _, uu := range core.Referrers(bo) {
+				if ifi, ok := uu.(*ssa.If); ok && test == nil {
+					test = ifi
+					if bo.Op == token.EQL {
+						emptySucc = ifi.Block().Succs[0]
+					} else {
+						emptySucc = ifi.Block().Succs[1]
+					}
+				}
+			}
+		}
+		// len(p) == 0 and its variants
+		for _, u := range core.Referrers(p) {
+			lc, ok := u.(*ssa.Call)
+			if !ok {
+				continue
+			}
+			if bi, ok := lc.Call.Value.(*ssa.Builtin); !ok || bi.Name() != "len" {
+				continue
+			}
+			for _, uu := range core.Referrers(lc) {
+				bo, ok := uu.(*ssa.BinOp)
+				if !ok {
+					continue
+				}
+				_, zs, okT := a5LenTest(bo, func(v ssa.Value) bool { return v == ssa.Value(lc) })
+				if !okT || zs < 0 {
+					continue
+				}
+				for _, u3 := range core.Referrers(bo) {
+					if ifi, ok := u3.(*ssa.If); ok && test == nil {
+						test = ifi
+						emptySucc = ifi.Block().Succs[zs]
+					}
+				}
+			}
+		}
+		if test == nil {
+			noTest := "no `" + p.Name() + " == \"\"` test: empty input is parsed (and fails) instead of yielding empty output"
+			// delegation: every parse of p is a tail call `return g(..., p, ...)` of a helper that does the test
+			n := 0
+			var via []string
+			for _, ci := range core.Calls(f) {
+				for _, ai := range sinkArg(ci) {
+					if ai >= len(ci.Common().Args) || ci.Common().Args[ai] != ssa.Value(p) {
+						continue
+					}
+					call, isCall := ci.(*ssa.Call)
+					g := ci.Common().StaticCallee()
+					if !isCall || g == nil || g.Blocks == nil || ai >= len(g.Params) || !inputParam[psink{g, ai}] || !c19ErrSig(g) || depth > 3 || !c19TailCall(call) {
+						return "", token.NoPos, noTest, f.Pos()
+					}
+					if g.Signature.Results().Len() != f.Signature.Results().Len() {
+						return "", token.NoPos, noTest, f.Pos()
+					}
+					if _, _, b, bp := emptyEdge(g, ai, depth+1); b != "" {
+						return "", token.NoPos, "the input is handed to " + core.FuncKey(g) + " untested, and there: " + b, bp
+					}
+					n++
+					via = append(via, core.FuncKey(g))
+				}
+			}
+			if n == 0 {
+				return "", token.NoPos, noTest, f.Pos()
+			}
+			return "the input goes, untested, only into " + strings.Join(via, ", ") + " whose result is returned untouched; there: (\"\", nil) on the empty edge, and the test dominates the parse", f.Pos(), "", token.NoPos
+		}
+		bad, badPos = "", core.InstrPos(test)
+		for blk := range core.ReachableBlocks(emptySucc, nil) {
+			for _, in := range blk.Instrs {
+				if rt, ok := in.(*ssa.Return); ok {
+					if !(core.IsNilConst(rt.Results[last]) && core.IsZeroConst(rt.Results[0])) && bad == "" {
+						bad, badPos = "the empty-input edge does not return (\"\", nil)", core.InstrPos(rt)
+					}
+				}
+				if _, ok := in.(ssa.CallInstruction); ok && bad == "" {
+					bad, badPos = "the empty-input edge does work before returning", core.InstrPos(in)
+				}
+			}
+		}
+		for _, ci := range core.Calls(f) {
+			for _, ai := range sinkArg(ci) {
+				if ai < len(ci.Common().Args) && ci.Common().Args[ai] == ssa.Value(p) && !core.Dominates(test, ci) && bad == "" {
+					bad, badPos = "the input is parsed on a path that has not tested it for emptiness", core.InstrPos(ci)
+				}
+			}
+		}
+		if bad != "" {
+			return "", token.NoPos, bad, badPos
+		}
+		return "(\"\", nil) on the empty edge; the test dominates the parse", core.InstrPos(test), "", token.NoPos
+	}
+
 	for _, f := range fns {
 		res := f.Signature.Results()
 		if res.Len() < 2 || !c19IsError(res.At(res.Len()-1).Type()) {
@@ -784,13 +910,8 @@ func c19ErrorEdges(c *core.Ctx, fns []*ssa.Function) {
 			if core.IsNilConst(rt.Results[last]) {
 				continue
 			}
-			bad := ""
-			for i := 0; i < last; i++ {
-				if !core.IsZeroConst(rt.Results[i]) {
-					bad = fmt.Sprintf("result #%d is not the zero value", i)
-				}
-			}
-			c.Check(bad == "", "R19c", fk+" return with error", core.InstrPos(rt), "only zero values accompany the error",
+			how, bad := pairs.returnOK(f, rt)
+			c.Check(bad == "", "R19c", fk+" return with error", core.InstrPos(rt), how,
 				bad+": a value (formatted time) is returned together with a non-nil error")
 		}
 
@@ -825,15 +946,8 @@ func c19ErrorEdges(c *core.Ctx, fns []*ssa.Function) {
 				c.Bad("R19c", key, core.InstrPos(call), "the error result is discarded: a failed parse/zone lookup continues with a zero value")
 				continue
 			}
-			tests := c19NilTests(c19PhiClosure(errX))
-			if len(tests) == 0 {
-				c.Bad("R19c", key, core.InstrPos(call), "the error result is never compared with nil")
-				continue
-			}
-			barrier := map[*ssa.BasicBlock]bool{}
-			for _, t := range tests {
-				barrier[t.ifi.Block()] = true
-			}
+			errSet := c19PhiClosure(errX)
+			tests := c19NilTests(errSet)
 			// real uses of the value components
 			valSet := map[ssa.Value]bool{}
 			spill := map[ssa.Instruction]bool{}
@@ -841,6 +955,25 @@ func c19ErrorEdges(c *core.Ctx, fns []*ssa.Function) {
 				for v := range c19PhiClosure(ex) {
 					valSet[v] = true
 				}
+			}
+			// `return g(...)`: the untested error leaves the function together with the values of the same call
+			handedUp := map[*ssa.Return]bool{}
+			handedBy := ""
+			if len(tests) == 0 {
+				rets, ok := c19HandedUp(f, call, errSet, valSet)
+				if !ok {
+					c.Bad("R19c", key, core.InstrPos(call), "the error result is never compared with nil")
+					continue
+				}
+				if handedBy = pairs.responsible(f, call); handedBy == "" {
+					c.Bad("R19c", key, core.InstrPos(call), "the error result is never compared with nil: it is handed up together with the value, but neither is the tuple produced by a function this rule checks nor are all callers of "+fk+" known and checked")
+					continue
+				}
+				handedUp = rets
+			}
+			barrier := map[*ssa.BasicBlock]bool{}
+			for _, t := range tests {
+				barrier[t.ifi.Block()] = true
 			}
 			// a value parked in a local variable of the function (struct-typed results are spilled) is used where
 			// the variable is read, not where it is parked
@@ -885,6 +1018,9 @@ func c19ErrorEdges(c *core.Ctx, fns []*ssa.Function) {
 				if spill[in] {
 					return false
 				}
+				if rt, ok := in.(*ssa.Return); ok && handedUp[rt] {
+					return false
+				}
 				for _, op := range in.Operands(nil) {
 					if *op != nil && valSet[*op] {
 						return true
@@ -917,9 +1053,12 @@ func c19ErrorEdges(c *core.Ctx, fns []*ssa.Function) {
 					}
 				}
 			}
-			if bad != "" {
+			switch {
+			case bad != "":
 				c.Bad("R19c", key, badPos, bad)
-			} else {
+			case handedBy != "":
+				c.OK("R19c", key, core.InstrPos(call), "values and error are used only by returns that hand the tuple up untouched: "+handedBy)
+			default:
 				c.OK("R19c", key, core.InstrPos(call), "tested; values used only on the nil edge; the non-nil edge returns the error")
 			}
 		}
@@ -933,86 +1072,11 @@ func c19ErrorEdges(c *core.Ctx, fns []*ssa.Function) {
 				continue
 			}
 			key := fk + " empty input " + p.Name()
-			var test *ssa.If
-			var emptySucc *ssa.BasicBlock
-			for _, u := range core.Referrers(p) {
-				bo, ok := u.(*ssa.BinOp)
-				if !ok || (bo.Op != token.EQL && bo.Op != token.NEQ) {
-					continue
-				}
-				other := bo.Y
-				if bo.Y == ssa.Value(p) {
-					other = bo.X
-				}
-				k, ok := other.(*ssa.Const)
-				if !ok || k.Value == nil || k.Value.Kind() != constant.String || constant.StringVal(k.Value) != "" {
-					continue
-				}
-				for _, uu := range core.Referrers(bo) {
-					if ifi, ok := uu.(*ssa.If); ok && test == nil {
-						test = ifi
-						if bo.Op == token.EQL {
-							emptySucc = ifi.Block().Succs[0]
-						} else {
-							emptySucc = ifi.Block().Succs[1]
-						}
-					}
-				}
-			}
-			// len(p) == 0 and its variants
-			for _, u := range core.Referrers(p) {
-				lc, ok := u.(*ssa.Call)
-				if !ok {
-					continue
-				}
-				if bi, ok := lc.Call.Value.(*ssa.Builtin); !ok || bi.Name() != "len" {
-					continue
-				}
-				for _, uu := range core.Referrers(lc) {
-					bo, ok := uu.(*ssa.BinOp)
-					if !ok {
-						continue
-					}
-					_, zs, okT := a5LenTest(bo, func(v ssa.Value) bool { return v == ssa.Value(lc) })
-					if !okT || zs < 0 {
-						continue
-					}
-					for _, u3 := range core.Referrers(bo) {
-						if ifi, ok := u3.(*ssa.If); ok && test == nil {
-							test = ifi
-							emptySucc = ifi.Block().Succs[zs]
-						}
-					}
-				}
-			}
-			if test == nil {
-				c.Bad("R19c", key, f.Pos(), "no `"+p.Name()+" == \"\"` test: empty input is parsed (and fails) instead of yielding empty output")
-				continue
-			}
-			bad, badPos := "", core.InstrPos(test)
-			for blk := range core.ReachableBlocks(emptySucc, nil) {
-				for _, in := range blk.Instrs {
-					if rt, ok := in.(*ssa.Return); ok {
-						if !(core.IsNilConst(rt.Results[last]) && core.IsZeroConst(rt.Results[0])) && bad == "" {
-							bad, badPos = "the empty-input edge does not return (\"\", nil)", core.InstrPos(rt)
-						}
-					}
-					if _, ok := in.(ssa.CallInstruction); ok && bad == "" {
-						bad, badPos = "the empty-input edge does work before returning", core.InstrPos(in)
-					}
-				}
-			}
-			for _, ci := range core.Calls(f) {
-				for _, ai := range sinkArg(ci) {
-					if ai < len(ci.Common().Args) && ci.Common().Args[ai] == ssa.Value(p) && !core.Dominates(test, ci) && bad == "" {
-						bad, badPos = "the input is parsed on a path that has not tested it for emptiness", core.InstrPos(ci)
-					}
-				}
-			}
+			how, okPos, bad, badPos := emptyEdge(f, i, 0)
 			if bad != "" {
 				c.Bad("R19c", key, badPos, bad)
 			} else {
-				c.OK("R19c", key, core.InstrPos(test), "(\"\", nil) on the empty edge; the test dominates the parse")
+				c.OK("R19c", key, okPos, how)
 			}
 		}
 	}
